@@ -19,7 +19,7 @@ import (
 
 func init() {
 	register(&Prop{ID: "C14", Gen: c14Gen, Oracle: c14Oracle,
-		Rule: "scheduled runs: log sizes 2..12 (thorough ..40), tile heights 1..3 (thorough ..8), 1..2 clients (thorough 3) on a shared configuration with shared or separate caches, 2..4 goroutines (thorough 8), lookups with repeats / `/go.mod` versions / upper-case paths / private paths, honest server growing between responses, cold or warm start; schedules: uniform random, round-robin, run-to-completion, configuration-writes-last, tile-reads-last; non-trivial = at least two goroutines overlap in time; distinct by scenario line"})
+		Rule: "scheduled runs: log sizes 2..12 (thorough ..40), tile heights 1..3 (thorough ..8), 1..2 clients (thorough 3) on a shared configuration with shared or separate caches, 2..4 goroutines (thorough 8), lookups with repeats / `/go.mod` versions / upper-case paths / private paths, honest server growing between responses, cold or warm start; schedules: uniform random, round-robin, run-to-completion, configuration-writes-last, tile-reads-last; plus a few deep worlds under a low tile height (511..1500 records, tile height 1, rarely 2, sizes with many one bits, records far from the right edge: more than 16 tiles in one tile request; cold start, stored earlier large head, or warm cache): a sequential honest sweep and scheduled runs of 2..4 goroutines on 1..2 clients over a growing server; non-trivial = at least two goroutines overlap in time; distinct by scenario line"})
 }
 
 // c14Scenario builds one concurrent scenario line.
@@ -286,6 +286,194 @@ func c14Judge(g *Gen, line string, tag string) *clOutcome {
 	return out
 }
 
+// ---------------------------------------------------------------------------------------------
+// Deep trees under a low tile height.
+//
+// Input class added for the clause "with an honest server any number of goroutines and clients all succeed with the
+// server's lines, for ALL tile heights and trees": a single proof that touches MANY tiles.  The scenarios above use
+// trees of at most 12 (thorough 40) records, so no ReadTiles call ever asked for more than a handful of tiles and
+// everything in the client that depends on the NUMBER of tiles of one request (slot bookkeeping of the parallel tile
+// reads, batching, the once-cache under dozens of simultaneous keys) was never exercised.  With tile height 1 (2, rarely)
+// and several hundred to 1500 records, authenticating a record far from the right edge needs about 2*log2(N) tiles in
+// one call (N = 1023, record 0: 10 right-edge tiles + 9 parents), and a consistency check between two large heads
+// (warm start at a large size, server grown since) needs about as many again.
+//
+// Sizes 511..1500: all-ones shapes 2^k-1 and their neighbours (longest right edge), sizes with many one bits, and uniform
+// ones; records: the left edge (0, 1, 2, 3), both sides of the big subtree boundaries (255|256, 511|512, N/2), the first
+// quarter, and the right edge (N-1, few tiles: the contrast case).  These worlds are expensive (a tree of N records and
+// one real server per distinct response size), so there are only a few of them and the response sizes of the growing
+// server come from a small set.
+
+func c14DeepN(r *Rand) int {
+	switch r.Intn(10) {
+	case 0, 1, 2, 3, 4:
+		// 1023 with up to two of the lower nine bits cleared: 8..10 right-edge tiles on top of the 9 tiles of a
+		// left-edge record's path (the number of tiles of one request grows with the number of one bits of the size)
+		n := 1023
+		for k := r.Intn(3); k > 0; k-- {
+			n &^= 1 << uint(r.Intn(9))
+		}
+		return n
+	case 5:
+		return 1022 + r.Intn(4) // 1022 .. 1025: all ones, and the shortest right edge next to it
+	case 6, 7:
+		// eleven levels, many one bits
+		return []int{1279, 1407, 1439, 1471, 1487, 1495, 1499, 1500}[r.Intn(8)]
+	case 8:
+		return []int{511, 512, 513, 767, 895, 959}[r.Intn(6)]
+	}
+	return 511 + r.Intn(1500-511+1) // uniform (few one bits as a rule: the contrast case)
+}
+
+// c14DeepIDs: records whose proofs are long (far from the right edge) plus the right edge itself, all < lim.
+func c14DeepIDs(r *Rand, N, lim, k int) []int {
+	cand := []int{0, 1, 2, 3, 255, 256, 511, 512, N/2 - 1, N / 2, r.Intn(N/4 + 1), r.Intn(N/4 + 1), r.Intn(N), N - 2, N - 1}
+	var ids []int
+	for len(ids) < k {
+		id := cand[r.Intn(len(cand))]
+		if len(ids) == 0 {
+			id = cand[r.Intn(4)] // always at least one record on the far left
+		}
+		if id < 0 {
+			id = 0
+		}
+		if id >= lim {
+			id = r.Intn(lim)
+		}
+		ids = append(ids, id)
+	}
+	return ids
+}
+
+func c14DeepH(r *Rand) int {
+	if r.Intn(6) == 0 {
+		return 2 // fewer tiles per proof; the same worlds, the other low height
+	}
+	return 1
+}
+
+// c14DeepWarm: start from an earlier large head a: the stored head alone (cold cache), or an honest earlier client run
+// that looked up the right-edge record of that tree (few tiles cached) or a far-left one (its whole path cached, partial
+// right-edge tiles of the old width included).
+func c14DeepWarm(r *Rand, a int) string {
+	switch r.Intn(4) {
+	case 0, 1:
+		return fmt.Sprintf("cfg=A@%d", a)
+	case 2:
+		return fmt.Sprintf("warm=0:A@%d:%d", a, a-1)
+	}
+	return fmt.Sprintf("warm=0:A@%d:%d", a, r.Intn(4))
+}
+
+// c14DeepSeqScenario: the sequential honest sweep over a deep tree: one or two clients (own caches), cold or warm start
+// from an earlier large head (the first lookup then proves consistency between two large trees), lookups one after the
+// other; the server may have grown between the warm-up and the sweep.  All must succeed with the server's lines.
+func c14DeepSeqScenario(r *Rand, wseed uint64) string {
+	N := c14DeepN(r)
+	parts := []string{fmt.Sprintf("client.run w=%d:%d:0:0 h=%d", wseed, N, c14DeepH(r))}
+	if r.Intn(2) == 0 {
+		a := 300 + r.Intn(N-300) // 300 .. N-1: an earlier large head
+		if r.Bool() {
+			a = N/2 + r.Intn(2) // about half: the old tree is one big subtree of the new one
+		}
+		parts = append(parts, c14DeepWarm(r, a))
+	}
+	parts = append(parts, "new=0:0")
+	C := 1
+	if r.Intn(3) == 0 {
+		C = 2
+		parts = append(parts, "new=1:1")
+	}
+	k := 5 + r.Intn(4)
+	for i, id := range c14DeepIDs(r, N, N, k) {
+		key := "A" + itoa(id)
+		if r.Intn(4) == 0 {
+			key += "m"
+		}
+		parts = append(parts, fmt.Sprintf("look=%d:%s", i%C, key))
+	}
+	return strings.Join(parts, " ")
+}
+
+// c14DeepParScenario: the concurrent version: 2..4 goroutines on 1..2 clients sharing the configuration (shared or
+// separate caches) over a deep tree, honest server growing between responses, cold or warm start, every schedule class.
+func c14DeepParScenario(r *Rand, wseed uint64) string {
+	N := c14DeepN(r)
+	parts := []string{fmt.Sprintf("client.run w=%d:%d:0:0 h=%d", wseed, N, c14DeepH(r))}
+	lo := N - 3 // the growing server answers from A@(N-3) .. A@N: at most four real servers per world
+	warm := 0
+	if r.Intn(3) == 0 {
+		warm = []int{N / 2, N/2 + 1, lo}[r.Intn(3)]
+		parts = append(parts, c14DeepWarm(r, warm))
+	}
+	C := 1 + r.Intn(2)
+	sep := r.Bool()
+	for c := 0; c < C; c++ {
+		grp := 0
+		if sep {
+			grp = c
+		}
+		parts = append(parts, fmt.Sprintf("new=%d:%d", c, grp))
+	}
+	G := 2 + r.Intn(3)
+	ids := c14DeepIDs(r, N, lo, G)
+	if G > 2 && r.Bool() {
+		ids[G-1] = ids[0] // a repeated key: the once-cache must hand the same result to both
+	}
+	var items, ss []string
+	for _, id := range ids {
+		key := "A" + itoa(id)
+		if r.Intn(4) == 0 {
+			key += "m"
+		}
+		items = append(items, fmt.Sprintf("%d.%s", r.Intn(C), key))
+	}
+	var sizes []int
+	for i := 0; i < G; i++ {
+		sizes = append(sizes, lo+r.Intn(N-lo+1))
+	}
+	sort.Ints(sizes)
+	for _, s := range sizes {
+		ss = append(ss, itoa(s))
+	}
+	parts = append(parts, "grow="+strings.Join(ss, ","))
+	strat := []string{"rand", "rand", "conflict", "memrace", "rr", "canon", "last"}[r.Intn(7)]
+	parts = append(parts, fmt.Sprintf("par=%s:%d:%s", strat, r.Intn(1000000), strings.Join(items, ",")))
+	if r.Intn(3) == 0 {
+		parts = append(parts, fmt.Sprintf("look=%d:A%d", r.Intn(C), r.Intn(lo)))
+	}
+	return strings.Join(parts, " ")
+}
+
+// c14DeepTag counts, for the evidence, the runs in which a client read more than 16 distinct tiles while one of its
+// lookups ran (exact for sequential lookups, an upper bound for concurrent ones).
+func c14DeepTag(g *Gen, out *clOutcome) {
+	if out == nil {
+		return
+	}
+	most := 0
+	for _, lk := range out.looks {
+		if lk.to < lk.from || lk.to > len(out.env.trace) {
+			continue
+		}
+		seen := map[string]bool{}
+		for _, ev := range out.env.trace[lk.from:lk.to] {
+			if ev.C == lk.c && ev.Kind == "rc" && strings.Contains(ev.File, "/tile/") {
+				seen[ev.File] = true
+			}
+		}
+		if len(seen) > most {
+			most = len(seen)
+		}
+	}
+	switch {
+	case most > 16:
+		g.st.OracleTags["deep/more-than-16-tiles-read-during-one-lookup"]++
+	case most > 8:
+		g.st.OracleTags["deep/9-to-16-tiles-read-during-one-lookup"]++
+	}
+}
+
 func c14Oracle(g *Gen, n int) {
 	wseed := g.U64()%1000 + 1
 	for i := 0; i < n; i++ {
@@ -296,6 +484,24 @@ func c14Oracle(g *Gen, n int) {
 		line, _ := c14Scenario(g.Rand, wseed+uint64(i%7))
 		tag := "sched/" + line[strings.Index(line, "par=")+4:][:4]
 		c14Judge(g, line, tag)
+	}
+	// deep trees / low tile height: a few (expensive) worlds per run.  They run last and draw from a generator of their
+	// own (derived from the world seed), so that the stream of the scenarios above is what it was before they existed.
+	r := &Rand{s: wseed*0x9e3779b97f4a7c15 + 0xdee9}
+	nseq, npar := 3, 4
+	if thorough {
+		nseq, npar = 30, 60
+	}
+	if n < 50 {
+		nseq, npar = 1, 1
+	}
+	for i := 0; i < nseq; i++ {
+		c14DeepTag(g, c14Judge(g, c14DeepSeqScenario(r, wseed+uint64(i%3)), "deep/sequential-sweep"))
+	}
+	for i := 0; i < npar; i++ {
+		line := c14DeepParScenario(r, wseed+uint64(i%3))
+		strat := line[strings.Index(line, "par=")+4:]
+		c14DeepTag(g, c14Judge(g, line, "deep/sched/"+strat[:strings.IndexByte(strat, ':')]))
 	}
 }
 
